@@ -350,8 +350,8 @@ class Array:
         For floating point types using a value of float('nan') will count the number of elements that are NaN.
 
         """
-        if math.isnan(value):
-            return sum(math.isnan(i) for i in self)
+        if isinstance(value, float) and math.isnan(value):
+            return sum(isinstance(i, float) and math.isnan(i) for i in self)
         else:
             return sum(i == value for i in self)
 
